@@ -25,6 +25,8 @@ import numpy as np
 from .. import funcutil as fu
 from ..common import dumps, MachineryError
 
+LAYOUTS = [0, 1, 2, 3]
+LAYNAME = {0: 'one-axis', 1: 'multi-axis', 2: 'multi-axis', 3: 'multi-axis'}
 ROT = {'rn2': 'norms', 'rnw2': 'ind2', 'discrH': 'smooth', 'discr2': 'ind1', 'power1': 'kl', 'pspace1': 'core'}
 ROT2 = {'rn2': 'ind2', 'rnw2': 'norms', 'discrH': 'ind1', 'discr2': 'smooth', 'power1': 'norms', 'pspace1': 'core2'}
 LAWGROUPS = ['norms', 'ind2', 'smooth', 'ind1', 'kl']
@@ -111,17 +113,17 @@ def replay_program(arg):
     if not cases:
         return res
     built = {}
-    for variant in range(per_case):
+    for variant, layout in [(v, l) for v in range(per_case) for l in LAYOUTS]:
         try:
-            built[variant] = fu.Built(sp, f, variant)
+            built[(variant, layout)] = fu.Built(sp, f, variant, layout=layout)
         except (NotImplementedError, fu.Unbuildable):
             res['noprox'] += 1     # e.g. a convex conjugate the class does not offer
             return res
         except Exception as e:     # the program is well-formed: construction must work
-            res['viol'].append((fu.signature(sp, f, 'construction-raises', {'error': type(e).__name__}),
-                                {'stage': 'replay', 'sp': sp, 'f': f, 'error': str(e)[:200]}))
+            res['viol'].append((fu.signature(sp, f, 'construction-raises', {'error': type(e).__name__, 'layout': LAYNAME[layout]}),
+                                {'stage': 'replay', 'sp': sp, 'f': f, 'error': str(e)[:200], 'layout': layout}))
             return res
-    res['classes'] = fu.class_names(built[0].func)
+    res['classes'] = fu.class_names(built[(0, 0)].func)
     prev = {}
     for ci, case in enumerate(cases):
         zstar = fu.frv(case['z']) if case['nz'] else None
@@ -129,7 +131,9 @@ def replay_program(arg):
             res['dropped'] += 1
         xv = fu.frv(case['x'])
         for variant in range(per_case):
-            B = built[variant]
+            # the n points of the abstract space are laid out on 1, 2 or 3 axes in turn (same abstract case)
+            layout = LAYOUTS[(ci + variant + seed) % len(LAYOUTS)]
+            B = built[(variant, layout)]
             style = (ci + variant + seed) % 3
             ev, info = fu.observe_prox(B, case['sig'], case['sk'], xv, zstar, rnd, style=style,
                                        want_idem=rec['attrs']['indicator'])
@@ -138,12 +142,13 @@ def replay_program(arg):
                 return res
             ev['tag'] = 'replay'
             res['counts'].append(([f, rec['space'], case['sk'], case['sig'], case['x']], nontrivial_case(case)))
-            detail = {'stage': 'replay', 'sp': sp, 'f': f, 'case': case, 'variant': variant, 'style': style,
+            detail = {'stage': 'replay', 'sp': sp, 'f': f, 'case': case, 'variant': variant, 'style': style, 'layout': layout,
                       'observed': {'p': info.get('p'), 'Fp': info.get('Fp'), 'better': info.get('better'),
                                    'err': info['err']}}
             for clause, extra in judge(B, ev, info, case, sp, f, case['sk']):
                 extra = dict(extra)
                 extra['sigma'] = 'scalar' if case['sk'] == 's' else 'vector'
+                extra['layout'] = LAYNAME[B.layout]
                 res['viol'].append((fu.signature(sp, f, clause, extra), detail))
             if info.get('rounding_infeasible'):
                 res['rounding'] = res.get('rounding', 0) + 1
@@ -153,7 +158,7 @@ def replay_program(arg):
                                         % (fu.shape(f), rec['space']))
                 res['events'].append((ev, detail))
                 if want_pairs and case['sk'] == 's' and (ci % 3 == 0 or per_case > 1):
-                    pk = (variant, json.dumps(case['sig']))
+                    pk = (variant, layout, json.dumps(case['sig']))
                     if pk in prev:
                         x1, p1, xs1 = prev[pk]
                         x2, p2 = B.el(xv), B.el(info['p'])
@@ -185,8 +190,8 @@ def mkf(op, s=0, c=0, v=(), u=(), args=()):
 
 def driver_spaces():
     H = Fraction(1, 2)
-    return [('rn', 1, 3, [1] * 3), ('rnw', 1, 3, [4] * 3), ('discr', 1, 3, [2] * 3), ('discr', 1, 5, [H] * 5),
-            ('power', 2, 2, [H] * 4), ('power', 3, 2, [2] * 6), ('pspace', 2, 2, [4, 4, H, H])]
+    return [('rn', 1, 3, [1] * 3), ('rnw', 1, 4, [4] * 4), ('discr', 1, 3, [2] * 3), ('discr', 1, 6, [H] * 6),
+            ('power', 2, 2, [H] * 4), ('power', 3, 2, [2] * 6), ('power', 2, 4, [2] * 8), ('pspace', 2, 2, [4, 4, H, H])]
 
 
 def driver_leaves(kind, m, N, rnd):
@@ -195,9 +200,11 @@ def driver_leaves(kind, m, N, rnd):
     L = [mkf('L1'), mkf('L2'), mkf('L2sq'), mkf('Huber', (1, 2)), mkf('Huber', 1), mkf('IndBox', -1, 2),
          mkf('IndBox', (-1, 2), (1, 2)), mkf('IndNonneg'), mkf('IndZero'), mkf('IndBall2'), mkf('IndBallInf'),
          mkf('Const', 0, 3), mkf('Const', 0, 0), mkf('KL', v=alt(1, 2)), mkf('KLcc', v=alt(1, 2)),
-         mkf('Huber', 2), mkf('KL'), mkf('KLcc'), mkf('KL', v=alt(Fraction(1, 2), 3))]
+         mkf('Huber', 2), mkf('KL'), mkf('KLcc'), mkf('KL', v=alt(Fraction(1, 2), 3)),
+         # documented boundary values of the parameters, on every space kind
+         mkf('Huber', 0), mkf('IndBox', 1, 1), mkf('IndBox', 0, 0), mkf('IndZero', 0, -2)]
     if m == 1:
-        L += [mkf('Linf'), mkf('IndBall1'), mkf('IndSum', 1), mkf('IndSum', (5, 2)), mkf('IndSimplex', 2), mkf('IndSimplex', 1)]
+        L += [mkf('Linf'), mkf('IndBall1'), mkf('IndSum', 1), mkf('IndSum', (5, 2)), mkf('IndSum', 0), mkf('IndSum', -2), mkf('IndSimplex', 2), mkf('IndSimplex', 1)]
     if kind == 'power':
         L += [mkf('GroupL1'), mkf('IndGroupBall'), mkf('GroupL1', 1), dict(mkf('IndGroupBall'), s=[1, 0])]
     if kind == 'pspace':
@@ -217,6 +224,8 @@ def driver_rules(N, rnd):
             lambda g: mkf('AddConst', 0, -2, args=[g]),
             lambda g: mkf('QuadPert', rnd.choice([(1, 2), (3, 2)]), 1, u=rv(), args=[g]),
             lambda g: mkf('QuadPert', 0, 0, u=rv(), args=[g]),
+            lambda g: mkf('QuadPert', 0, 0, args=[g]),                      # coefficient 0, no linear term
+            lambda g: mkf('LScale', (16, 1), args=[g]),                     # weight beyond every |x|
             lambda g: mkf('Conj', args=[g]),
             lambda g: mkf('Bregman', v=rv(), u=rv(), args=[g])]
 
@@ -361,21 +370,26 @@ def driver_program(arg):
     N = m * n
     rnd = _rnd(json.dumps(f, sort_keys=True) + kind + str(N), seed)
     res = {'events': [], 'viol': [], 'counts': [], 'classes': set(), 'noprox': 0}
-    try:
-        B = fu.Built(sp, f, 0, factory=FACTORIES[fname] if fname else None)
-    except (NotImplementedError, fu.Unbuildable):
-        res['noprox'] += 1
-        return res
-    except Exception as e:
-        res['viol'].append((fu.signature(sp, f, 'construction-raises', {'error': type(e).__name__}),
-                            {'stage': 'driver', 'sp': sp, 'f': f, 'error': str(e)[:200], 'factory': fname}))
-        return res
+    Bs = {}
+    for layout in LAYOUTS:
+        try:
+            Bs[layout] = fu.Built(sp, f, 0, factory=FACTORIES[fname] if fname else None, layout=layout)
+        except (NotImplementedError, fu.Unbuildable):
+            res['noprox'] += 1
+            return res
+        except Exception as e:
+            res['viol'].append((fu.signature(sp, f, 'construction-raises', {'error': type(e).__name__, 'layout': LAYNAME[layout]}),
+                                {'stage': 'driver', 'sp': sp, 'f': f, 'error': str(e)[:200], 'factory': fname, 'layout': layout}))
+            return res
+    B = Bs[0]
     res['classes'] = fu.class_names(B.func)
     fixed, rand = driver_points(N, rnd, nrand)
     vecsig = [fu.qj(Fraction(1, 2) if i % 2 == 0 else Fraction(2)) for i in range(N)]
     for xi, xv in enumerate(fixed + rand):
+        B = Bs[LAYOUTS[(xi + seed) % len(LAYOUTS)]]
         if xi < len(fixed):
-            sgs = [Fraction(1, 2), Fraction(2)] if nrand > 4 else [[Fraction(1, 2), Fraction(2)][xi % 2]]
+            # (16: a step beyond every |x|: everything is thresholded / projected to the far side)
+            sgs = [Fraction(1, 2), Fraction(2), Fraction(16)] if nrand > 4 else [[Fraction(1, 2), Fraction(2), Fraction(16)][xi % 3]]
         else:
             sgs = [rnd.choice([Fraction(1, 4), Fraction(1, 2), 1, 2, 4])]
         sigs = [([fu.qj(sg)] * N, 's') for sg in sgs]
@@ -388,13 +402,14 @@ def driver_program(arg):
                 return res
             ev['tag'] = 'driver'
             detail = {'stage': 'driver', 'sp': sp, 'f': f, 'sig': sig, 'sk': sk, 'x': [fu.qj(Fraction(v)) for v in xv],
-                      'factory': fname,
+                      'factory': fname, 'layout': B.layout,
                       'observed': {'p': info.get('p'), 'Fp': info.get('Fp'), 'better': info.get('better'),
                                    'err': info['err']}}
             res['counts'].append(([f, kind, N, sig, detail['x'], fname], True))
             for clause, extra in judge(B, ev, info, None, sp, f, sk):
                 extra = dict(extra)
                 extra['sigma'] = 'scalar' if sk == 's' else 'vector'
+                extra['layout'] = LAYNAME[B.layout]
                 if fname:
                     extra['factory'] = fname
                     extra['option_g'] = 'yes' if _lam_g(B)[1] is not None else 'no'
@@ -402,6 +417,27 @@ def driver_program(arg):
             if not info['err']:
                 res['events'].append((ev, detail))
     return res
+
+
+def driver_args(seed, quick):
+    dargs = []
+    drnd = random.Random(seed * 7919 + 7)
+    for spd in driver_spaces():
+        kind, m, n, W = spd
+        N = m * n
+        for leaf in driver_leaves(kind, m, N, drnd):
+            rules = driver_rules(N, drnd)
+            picks = rules if not quick else [rules[0]] + drnd.sample(rules[1:], 2)
+            for rule in picks:
+                prog = rule(leaf)
+                if prog['op'] == 'Bregman' and not all(o in FINITE_LEAVES or o in ('Bregman', 'SepSum')
+                                                       for o in fu.ops_of(prog)):
+                    continue           # the reference point of a Bregman distance must lie in dom f
+                dargs.append((spd, prog, seed, 2 if quick else 8))
+        for fname, prog in factory_programs(kind, m, N):
+            if kind in ('rn', 'discr', 'power') and (not quick or n <= 3):
+                dargs.append((spd, prog, seed, 2 if quick else 8, fname))
+    return dargs
 
 
 # ------------------------------------------------------------------ check
@@ -482,23 +518,7 @@ def run(ctx):
         for o in pool.imap(replay_program, args, chunksize=4):
             absorb(o, False)
         # ---- driver beyond the TLC constants
-        dargs = []
-        drnd = random.Random(ctx.seed * 7919 + 7)
-        for spd in driver_spaces():
-            kind, m, n, W = spd
-            N = m * n
-            for leaf in driver_leaves(kind, m, N, drnd):
-                rules = driver_rules(N, drnd)
-                picks = rules if not quick else [rules[0]] + drnd.sample(rules[1:], 2)
-                for rule in picks:
-                    prog = rule(leaf)
-                    if prog['op'] == 'Bregman' and not all(o in FINITE_LEAVES or o in ('Bregman', 'SepSum')
-                                                           for o in fu.ops_of(prog)):
-                        continue           # the reference point of a Bregman distance must lie in dom f
-                    dargs.append((spd, prog, ctx.seed, 2 if quick else 8))
-            for fname, prog in factory_programs(kind, m, N):
-                if kind in ('rn', 'discr', 'power') and (not quick or n <= 3):
-                    dargs.append((spd, prog, ctx.seed, 2 if quick else 8, fname))
+        dargs = driver_args(ctx.seed, quick)
         for o in pool.imap(driver_program, dargs, chunksize=4):
             absorb(o, True)
         for o in pool.imap(opaque_program, [(i, ctx.seed, 2 if quick else 10) for i in range(len(opaque_recipes()))]):
@@ -552,14 +572,15 @@ def replay(body):
     print('program  :', fu.shape(f), 'on', sp['kind'], 'W =', d['sp']['W'])
     if 'error' in d and 'case' not in d and 'sig' not in d:
         try:
-            fu.Built(sp, f, d.get('variant', 0))
+            fu.Built(sp, f, d.get('variant', 0), layout=d.get('layout', 0))
             print('NOT-REPRODUCED')
             return 0
         except Exception as e:
             print('construction raises', type(e).__name__, e)
             print('REPRODUCED')
             return 1
-    B = fu.Built(sp, f, d.get('variant', 0))
+    B = fu.Built(sp, f, d.get('variant', 0), layout=d.get('layout', 0),
+                 factory=FACTORIES[d['factory']] if d.get('factory') else None)
     if 'case' in d:
         case = d['case']
         sig, sk, xv = case['sig'], case['sk'], fu.frv(case['x'])
